@@ -478,9 +478,38 @@ func TestVerifC06(t *testing.T) {
 				hdOp{K: "hello", C: 2, Ht: "resume", Id: &hdIdRef{T: "pub", C: 1}},
 				hdOp{K: "connect", C: 3, Addr: 8}, hdOp{K: "hello", C: 3, Ht: "resume", Id: &hdIdRef{T: "priv", C: 1}},
 				hdOp{K: "hello", C: 2, Ht: "resume", Id: &hdIdRef{T: "priv", C: 1}})
-			return append([]*hdCase{{Id: 0, Mode: 1, Ops: ops}, {Id: 1, Mode: 1, Ops: gone}, {Id: 2, Mode: 1, Ops: chat}, {Id: 3, Mode: 1, Ops: lost},
+			// a resume whose connection is cut (for the server's writes) while the queue is flushed: after the reply and
+			// k-1 of the n queued messages. More is addressed to the session while the server still believes it
+			// connected; then the connection drops and a third one resumes - or takes the session over, or is itself
+			// cut during its flush and a fourth one resumes. The connections together got everything, in order, once.
+			cut := func(k int, second string) []hdOp {
+				o := []hdOp{{K: "connect", C: 1}, {K: "connect", C: 2}, {K: "connect", C: 9}, {K: "hello", C: 1, B: 0, U: 1}, {K: "hello", C: 2, B: 0, U: 2}, {K: "hello", C: 9, B: 0, U: 3},
+					hdJoinOp(1, 1, 1), hdJoinOp(2, 1, 2), hdJoinOp(9, 1, 3), {K: "drop", C: 2},
+					{K: "msg", C: 1, To: hdToSession(2), Tag: 51}, {K: "msg", C: 9, To: &hdRecipient{T: "room"}, Tag: 52}, {K: "ctl", C: 1, To: hdToSession(2), Tag: 53},
+					{K: "msg", C: 9, To: &hdRecipient{T: "user", U: 2}, Tag: 54}, {K: "msg", C: 1, To: hdToSession(2), Tag: 55},
+					{K: "connect", C: 3}, {K: "wfail", C: 3, After: k}, {K: "hello", C: 3, Ht: "resume", Id: &hdIdRef{T: "priv", C: 2}},
+					{K: "msg", C: 1, To: hdToSession(2), Tag: 56}, {K: "msg", C: 9, To: &hdRecipient{T: "room"}, Tag: 57}}
+				switch second {
+				case "drop":
+					o = append(o, hdOp{K: "drop", C: 3}, hdOp{K: "msg", C: 1, To: hdToSession(2), Tag: 58},
+						hdOp{K: "connect", C: 4}, hdOp{K: "hello", C: 4, Ht: "resume", Id: &hdIdRef{T: "priv", C: 2}})
+				case "take":
+					o = append(o, hdOp{K: "connect", C: 4}, hdOp{K: "hello", C: 4, Ht: "resume", Id: &hdIdRef{T: "priv", C: 2}}, hdOp{K: "drop", C: 3})
+				default: // cut again
+					o = append(o, hdOp{K: "drop", C: 3}, hdOp{K: "connect", C: 5}, hdOp{K: "wfail", C: 5, After: 2}, hdOp{K: "hello", C: 5, Ht: "resume", Id: &hdIdRef{T: "priv", C: 2}},
+						hdOp{K: "drop", C: 5}, hdOp{K: "connect", C: 4}, hdOp{K: "hello", C: 4, Ht: "resume", Id: &hdIdRef{T: "priv", C: 2}})
+				}
+				return append(o, hdOp{K: "msg", C: 1, To: hdToSession(4), Tag: 59}, hdOp{K: "msg", C: 4, To: &hdRecipient{T: "room"}, Tag: 60},
+					hdOp{K: "drop", C: 4}, hdOp{K: "msg", C: 1, To: hdToSession(2), Tag: 61}, hdOp{K: "connect", C: 6}, hdOp{K: "hello", C: 6, Ht: "resume", Id: &hdIdRef{T: "priv", C: 2}})
+			}
+			var cuts []*hdCase
+			for k := 1; k <= 6; k++ {
+				cuts = append(cuts, &hdCase{Id: 40 + k, Mode: 1, Ops: cut(k, []string{"drop", "take", "again"}[k%3])})
+			}
+			cuts = append(cuts, &hdCase{Id: 48, Mode: 1, Ops: cut(2, "take")}, &hdCase{Id: 49, Mode: 1, Ops: cut(3, "again")}, &hdCase{Id: 50, Mode: 1, Ops: cut(5, "drop")})
+			return append(append([]*hdCase{{Id: 0, Mode: 1, Ops: ops}, {Id: 1, Mode: 1, Ops: gone}, {Id: 2, Mode: 1, Ops: chat}, {Id: 3, Mode: 1, Ops: lost},
 				{Id: 4, Mode: 1, Ops: dis}, {Id: 5, Mode: 1, Ops: kick}, {Id: 6, Mode: 1, Ops: w(false)}, {Id: 7, Mode: 1, Ops: w(true)}, {Id: 8, Mode: 1, Ops: thr}},
-				hdHeldJoinCases(9)...)
+				hdHeldJoinCases(9)...), cuts...)
 		}})
 }
 
@@ -605,6 +634,35 @@ func TestVerifC08(t *testing.T) {
 				// both in the call, the requester leaves the room (others stay) and comes back: it is not in the call any more
 				hdOp{K: "api", B: 0, SignAs: 0, R: 1, Api: "incall", RawRS: true, Users: []hdApiUser{{RS: 2, InCall: 7}, {RS: 1, InCall: 7}}}, req(2, 1, "video"),
 				hdJoinOp(2, 0, 0), hdJoinOp(2, 1, 2), req(2, 1, "screen"), hdJoinOp(2, 2, 2), hdJoinOp(2, 1, 2), req(2, 1, "screen"))
+			// the decision table: every message kind that is decided by a publish permission (an offer with an audio
+			// section, a video section, both, with sections on port 0, for the screen; a candidate for the own stream,
+			// before and after the stream is published) x every stream type x every permission set - given by the join
+			// reply and, after everything was granted in between, by the participants API
+			cand := func(c int, stream string) hdOp {
+				return hdOp{K: "media", C: c, Mk: "candidate", Stream: stream, To: hdToSession(c)}
+			}
+			for _, set := range [][]int{{4}, {}, {0}, {1}, {0, 1}, {3}, {2}, {3, 2}, {0, 2}, {1, 2, 4}, {0, 1, 2, 3, 4, 5}} {
+				table := func() []hdOp {
+					var ops []hdOp
+					for _, st := range []string{"screen", "video", "audio"} {
+						ops = append(ops, cand(1, st))
+						if st == "screen" {
+							ops = append(ops, offer(1, st, 0), offer(1, st, 3))
+						} else {
+							ops = append(ops, offer(1, st, 1), offer(1, st, 2), offer(1, st, 3), offer(1, st, 8), offer(1, st, 16+1))
+						}
+						ops = append(ops, cand(1, st))
+					}
+					// a candidate for somebody else's stream is not a matter of publish permissions
+					return append(ops, cand(2, "screen"), cand(2, "video"),
+						hdOp{K: "media", C: 1, Mk: "candidate", Stream: "screen", To: hdToSession(2)}, hdOp{K: "media", C: 1, Mk: "candidate", Stream: "video", To: hdToSession(2)})
+				}
+				ops := []hdOp{joinP(1, 1, 1, set...), hdJoinOp(2, 1, 2), incall}
+				ops = append(ops, table()...)
+				ops = append(ops, perms(1, 0, 1, 2, 3, 4, 5), cand(1, "screen"), cand(1, "video"), offer(1, "screen", 0), offer(1, "video", 3), cand(1, "screen"), cand(1, "video"), perms(1, set...))
+				ops = append(ops, table()...)
+				add(false, ops...)
+			}
 			return out
 		}})
 }
@@ -690,6 +748,14 @@ func TestVerifC19(t *testing.T) {
 			toV := func(c, of, v, tag int) hdOp {
 				return hdOp{K: "msg", C: c, To: &hdRecipient{T: "session", Id: &hdIdRef{T: "vpub", C: of, V: v}}, Tag: tag}
 			}
+			ctlV := func(c, of, v, tag int) hdOp {
+				return hdOp{K: "ctl", C: c, To: &hdRecipient{T: "session", Id: &hdIdRef{T: "vpub", C: of, V: v}}, Tag: tag}
+			}
+			joinPerm := func(c, room, rs int, p ...int) hdOp {
+				o := hdJoinOp(c, room, rs)
+				o.HasP, o.Perm = true, p
+				return o
+			}
 			var out []*hdCase
 			for i, ops := range [][]hdOp{
 				// add, update, remove; remove twice; unknown id; room of nobody
@@ -713,6 +779,30 @@ func TestVerifC19(t *testing.T) {
 					upd(1, 2, 1, 0, 9), {K: "connect", C: 5}, {K: "hello", C: 5, B: 0, U: 5}, hdJoinOp(5, 1, 5), hdJoinOp(2, 0, 0), hdJoinOp(2, 1, 2), rem(1, 1, 1), hdJoinOp(4, 0, 0), hdJoinOp(4, 1, 4)},
 				// two internal clients with the same chosen id; an ordinary client trying
 				{addv(1, 1, 1, 5), hdJoinOp(3, 1, 0), addv(3, 1, 1, 6), rem(3, 1, 1), toV(2, 1, 1, 17), toV(2, 3, 1, 18), addv(2, 1, 1, 7), upd(2, 1, 1, 1, 1), rem(2, 1, 1)},
+				// messages and control messages to a virtual session from everybody who can name it: the internal client it
+				// belongs to, another internal client (with a virtual session of its own), an ordinary session in its room, one
+				// in another room / in no room, one that may not send control messages, a session of the other backend; to each
+				// of two virtual sessions of one client and to the one of the other client; the unrelated members of a
+				// recipient; then again after the owner changed rooms, after one was replaced (same chosen id) and removed
+				{addv(1, 1, 1, 5), addv(1, 2, 1, 6), hdJoinOp(3, 1, 0), addv(3, 1, 1, 7),
+					{K: "connect", C: 4}, {K: "hello", C: 4, B: 0, U: 4}, joinPerm(4, 2, 4, 0), {K: "connect", C: 5}, {K: "hello", C: 5, B: 1, U: 5}, hdJoinOp(5, 1, 5),
+					{K: "connect", C: 6}, {K: "hello", C: 6, B: 0, U: 6},
+					toV(1, 1, 1, 20), ctlV(1, 1, 1, 21), toV(1, 1, 2, 22), ctlV(1, 1, 2, 23), toV(1, 3, 1, 24), ctlV(1, 3, 1, 25),
+					toV(3, 1, 1, 26), ctlV(3, 1, 2, 27), toV(3, 3, 1, 28), ctlV(3, 3, 1, 29),
+					toV(2, 1, 1, 30), ctlV(2, 1, 2, 31), toV(2, 3, 1, 32), ctlV(2, 3, 1, 33),
+					toV(4, 1, 1, 34), ctlV(4, 1, 1, 35), toV(5, 1, 1, 36), ctlV(5, 3, 1, 37), toV(6, 1, 2, 38), ctlV(6, 3, 1, 39),
+					{K: "msg", C: 1, To: &hdRecipient{T: "session", Id: &hdIdRef{T: "vpub", C: 1, V: 1}, SU: 2}, Tag: 40},
+					{K: "ctl", C: 1, To: &hdRecipient{T: "session", Id: &hdIdRef{T: "vpub", C: 1, V: 2}, SId: &hdIdRef{T: "pub", C: 2}}, Tag: 41},
+					{K: "msg", C: 1, To: hdToSession(1), Tag: 42}, {K: "ctl", C: 1, To: hdToSession(3), Tag: 43}, {K: "msg", C: 3, To: hdToSession(1), Tag: 44},
+					hdJoinOp(1, 2, 0), toV(1, 1, 1, 45), ctlV(1, 1, 2, 46), toV(2, 1, 1, 47),
+					addv(1, 1, 2, 8), toV(1, 1, 1, 48), ctlV(1, 1, 1, 49), ctlV(3, 1, 1, 50), rem(1, 2, 1), toV(1, 1, 2, 51), ctlV(1, 1, 2, 52),
+					{K: "bye", C: 3}, toV(1, 3, 1, 53), ctlV(1, 3, 1, 54), toV(1, 1, 1, 55)},
+				// the owner is disconnected / resumed on a new connection / its writes fail: what is addressed to its virtual
+				// session follows its session
+				{addv(1, 1, 1, 5), toV(1, 1, 1, 60), {K: "drop", C: 1}, toV(2, 1, 1, 61), ctlV(2, 1, 1, 62),
+					{K: "connect", C: 4}, {K: "hello", C: 4, Ht: "resume", Id: &hdIdRef{T: "priv", C: 1}},
+					{K: "msg", C: 4, To: &hdRecipient{T: "session", Id: &hdIdRef{T: "vpub", C: 1, V: 1}}, Tag: 63},
+					{K: "ctl", C: 4, To: &hdRecipient{T: "session", Id: &hdIdRef{T: "vpub", C: 1, V: 1}}, Tag: 64}, toV(2, 1, 1, 65)},
 			} {
 				out = append(out, &hdCase{Id: i, Mode: 1, Ops: append(append([]hdOp{}, base...), ops...)})
 			}
